@@ -30,6 +30,7 @@ def suites : List (String × (String → String → CaseResult)) :=
   [("consts", ConstsSuite.runCase)] ++
   [("values", ValuesSuite.runCase)] ++
   [("extcache", ExtCacheSuite.runCase)] ++
+  [("regrewrite", RegRewriteSuite.runCase)] ++
   []
 
 structure DAcc where
